@@ -11,7 +11,7 @@ import (
 // a command (i) keeps using the log file the store used before it, (ii) never writes the other
 // one, (iii) is not refused because the lock file is missing.
 func zzC18SameLog(cmd int, cfg string) {
-	root := zzFSInit("1;winv=1;clean=1;legacy=1;Results=0;" + cfg)
+	root := zzFSInit("1;winv=1;clean=1;legacy=1;nolinks=1;Results=0;" + cfg) // nolinks: see zzSortedKeysCut
 	opts, dir := zzFSOpts(root)
 	p0 := getEventsPath(dir)
 	other := filepath.Join(dir, oldEventsFileName)
